@@ -13,8 +13,8 @@ R = 10        # requests per scenario
 
 
 class Scenario:
-    def __init__(self, sess, rng, opts, sid):
-        self.s = sess; self.rng = rng; self.o = opts; self.sid = sid
+    def __init__(self, sess, rng, opts, sid, svc="sign"):
+        self.s = sess; self.rng = rng; self.o = opts; self.sid = sid; self.svc = svc          # svc: the signing or the extending async service
         self.events = []
         self.idmap = {}          # real request id -> small id for the trace
         self.req = {}            # r -> dict(id, doc)
@@ -29,7 +29,7 @@ class Scenario:
 
     def start(self):
         o = self.o
-        out = self.s.cmd("NEW %d %d %d %d %d" % (o["N"], o["SndTo"], o["RcvTo"], o["MaxReq"], o["ConTo"]))
+        out = self.s.cmd("NEW %d %d %d %d %d%s" % (o["N"], o["SndTo"], o["RcvTo"], o["MaxReq"], o["ConTo"], " x" if self.svc == "extend" else ""))
         if not out or "rc=0" not in out[-1]:
             raise vlib.CheckError("cannot create async service: %s" % out)
         self.events.append(dict(e="New"))
@@ -39,11 +39,15 @@ class Scenario:
     def add(self):
         r = self.next_r; self.next_r += 1
         doc = ksi.imprint(1, b"doc-%d-%d" % (self.sid, r))
-        out = self.s.cmd("ADD %d %s 0" % (r, doc.hex()))
+        aggr = 1500000000 + 10 * r; pub = aggr + 1000 + r if (r % 2) else None
+        if self.svc == "extend":          # the request's `document` is the calendar input hash the honest extender will answer with
+            out = self.s.cmd("ADDX %d %d %s" % (r, aggr, pub if pub else "-"))
+        else:
+            out = self.s.cmd("ADD %d %s 0" % (r, doc.hex()))
         f = netsim.kv(out[-1])
         rc = int(f["rc"], 16)
         if rc == 0:
-            self.req[r] = dict(id=int(f["id"]), doc=doc)
+            self.req[r] = dict(id=int(f["id"]), doc=doc, aggr=aggr, pub=pub)
             self.events.append(dict(e="Add", r=r, rc="OK", id=self.small(int(f["id"]))))
         elif rc == 0x607:
             self.events.append(dict(e="Add", r=r, rc="FULL", id=0))
@@ -71,10 +75,27 @@ class Scenario:
         if self.s.conn_no != cno or (was_open and not self.s.conn_open):
             self.peer_open = True     # a new connection starts with an open peer
 
+    def resp_pdu(self, real, r, doc, status=0):
+        """one authentic response PDU of this service for request id `real` (r = the request it is modelled on, may be 0)"""
+        rng = self.rng
+        if self.svc == "extend":
+            q = self.req.get(r, dict(aggr=1500000000, pub=None))
+            pub = q["pub"] or q["aggr"] + 5000
+            if status:
+                body = ksi.tlv(0x01, ksi.uint(real)) + ksi.tlv(0x04, ksi.uint(status)) + ksi.tlv(0x05, b"invalid request\0")
+            else:
+                links = [(l, ksi.fake_imprint(1, rng.randbytes(8))) for l in reversed(ksi.cal_shape(pub, q["aggr"]))]
+                body = ksi.tlv(0x01, ksi.uint(real)) + ksi.tlv(0x04, b"") + ksi.tlv(0x12, ksi.uint(pub + 9)) + ksi.cal_chain_tlv(pub, q["aggr"], doc, links)
+            return ksi.pdu_v2(0x0321, b"anon", b"anon", [ksi.tlv(0x02, body)])
+        if status:
+            return ksi.pdu_v2(0x0221, b"anon", b"anon", [ksi.aggr_response_payload_v2(real, status=status, errmsg=b"invalid request")])
+        return ksi.pdu_v2(0x0221, b"anon", b"anon", [ksi.aggr_response_payload_v2(real, sig=ksi.build_sig(rng, doc, anchor="auth", links_per_chain=(1, 2)))])
+
     def server(self):
         if not self.s.conn_open or not self.peer_open:
             return False
         rng = self.rng
+        TAG = 0x0321 if self.svc == "extend" else 0x0221
         kind = rng.choices(["valid", "valid", "valid", "wronghash", "status", "errpdu", "badmac", "garbage", "unknown", "stale"],
                            weights=[6, 6, 6, 2, 2, 1, 1, 1, 1, 2])[0]
         known = list(self.req)
@@ -89,32 +110,31 @@ class Scenario:
                 real = real ^ (rng.choice([1, 2, 3]) << 32)      # same cache slot, another id generation
             doc = self.req[r]["doc"] if kind != "wronghash" else ksi.imprint(1, b"other")
             if kind == "status":
-                payload = ksi.aggr_response_payload_v2(real, status=0x101, errmsg=b"invalid request")
-                m = dict(k="resp", id=self.small(real), status=0x101, hashok=False)
+                raw = self.resp_pdu(real, r, doc, status=0x101)
+                m = dict(k="resp", id=self.small(real), status=0x101, hashok=False, fits=True)
             else:
-                sig = ksi.build_sig(rng, doc, anchor="auth", links_per_chain=(1, 2))
-                payload = ksi.aggr_response_payload_v2(real, sig=sig)
+                raw = self.resp_pdu(real, r, doc)
                 owner = [q for q in self.req if self.req[q]["id"] == real]      # a flipped generation may be another request's id
-                m = dict(k="resp", id=self.small(real), status=0, hashok=bool(owner) and self.req[owner[0]]["doc"] == doc)
-            raw = ksi.pdu_v2(0x0221, b"anon", b"anon", [payload])
+                fits = True
+                if self.svc == "extend" and owner:        # the extending service checks the reply's times against the request that owns the id
+                    fits = (self.req[owner[0]]["aggr"], self.req[owner[0]]["pub"]) == (self.req[r]["aggr"], self.req[r]["pub"])
+                m = dict(k="resp", id=self.small(real), status=0, hashok=bool(owner) and self.req[owner[0]]["doc"] == doc, fits=fits)
         elif kind == "unknown":
             real = 0x7fff0000 + rng.randrange(100)
-            sig = ksi.build_sig(rng, ksi.imprint(1, b"x"), anchor="auth", links_per_chain=(1, 1))
-            raw = ksi.pdu_v2(0x0221, b"anon", b"anon", [ksi.aggr_response_payload_v2(real, sig=sig)])
-            m = dict(k="resp", id=self.small(real), status=0, hashok=False)
+            raw = self.resp_pdu(real, 0, ksi.imprint(1, b"x"))
+            m = dict(k="resp", id=self.small(real), status=0, hashok=False, fits=True)
         elif kind == "errpdu":
-            raw = ksi.pdu_v2(0x0221, b"anon", b"anon", [ksi.error_payload_v2(0x102, b"auth")])
+            raw = ksi.pdu_v2(TAG, b"anon", b"anon", [ksi.error_payload_v2(0x102, b"auth")])
             m = dict(k="errpdu", status=0x102)
         elif kind == "badmac":
             r = rng.choice(known) if known else 0
             real = self.req[r]["id"] if r else 1
-            sig = ksi.build_sig(rng, self.req[r]["doc"] if r else ksi.imprint(1, b"x"), anchor="auth", links_per_chain=(1, 1))
-            raw = bytearray(ksi.pdu_v2(0x0221, b"anon", b"anon", [ksi.aggr_response_payload_v2(real, sig=sig)]))
+            raw = bytearray(self.resp_pdu(real, r, self.req[r]["doc"] if r else ksi.imprint(1, b"x")))
             raw[-1 - rng.randrange(32)] ^= 1 << rng.randrange(8)
             raw = bytes(raw)
             m = dict(k="badmac")
         else:
-            raw = bytes.fromhex("82210004deadbeef")
+            raw = bytes.fromhex("83210004deadbeef" if self.svc == "extend" else "82210004deadbeef")
             m = dict(k="garbage")
         self.s.cmd("S2C " + raw.hex())
         self.events.append(dict(e="Srv", m=m, kind=kind))
@@ -220,7 +240,7 @@ def random_group(chk, exe, rng, o, nscen, steps, label):
     done = 0
     try:
         for k in range(nscen):
-            sc = Scenario(sess, rng, o, k)
+            sc = Scenario(sess, rng, o, k, svc=("extend" if k % 3 == 2 else "sign"))
             starts.append(len(events) + 1)
             mark = len(sess.log)
             try:
